@@ -304,8 +304,6 @@ def compare_line(line, obs, exp, res, count=True):
                 out.append(("%s:value%s" % (kind, tag), "value sections differ in shape | " + line[:160], e[:300], o[:300]))
         else:
             out.append(("%s:%s%s" % (kind, name, tag), "%s: implementation %s, model %s | %s" % (name, o[:200], e[:200], line[:160]), e[:400], o[:400]))
-    # structure-only difference with all values right: the code no longer matches the algorithm model
-    kinds = {k for (k, _, _, _) in out}
     return out
 
 
@@ -378,8 +376,8 @@ def compare_T(line, obs, exp, res, count):
 
 def run_lines(drv, orc, lines):
     groups = [("C 1", lines[i:i + 40]) for i in range(0, len(lines), 40)]
-    obs = core.run_grouped_parallel(drv, groups)
-    exp = core.run_grouped_parallel(orc, groups)
+    obs = core.run_grouped_parallel(drv, groups, timeout=90, max_restarts=6)      # a hang of the implementation is reported as DIED
+    exp = core.run_grouped_parallel(orc, groups, timeout=600)
     o = [a for (_, ans) in obs for a in ans]
     e = [a for (_, ans) in exp for a in ans]
     return o, e
@@ -448,18 +446,24 @@ def check(ctx, replay=None):
         res.count("line:" + meta["src"])
         res.count("intervals:%s" % ("0" if meta.get("n", 1) == 0 else "1-3" if meta.get("n", 1) <= 3 else "4-8" if meta.get("n", 1) <= 8 else "9+"))
         res.traces_validated += 1
-        for (kind, what, ex, ob) in compare_line(line, a, b, res):
+        viol = compare_line(line, a, b, res)
+        # X/E lines whose only difference is the breakpoint representation (same function values everywhere compared):
+        # the specification holds on the implementation's output, only the algorithm model no longer matches
+        rep_only = bool(viol) and all(k.split(":")[0] in ("X", "E") and k.split(":")[1] in ("structure", "vectorize", "size") for (k, _, _, _) in viol)
+        for (kind, what, ex, ob) in viol:
             if kind not in seen_kinds and not replay:
                 seen_kinds[kind] = 1
                 small = shrink(drv, orc, line, kind, res)
                 if small != line:
                     oo, ee = run_lines(drv, orc, [small])
-                    for (k2, w2, e2, o2) in compare_line(small, oo[0], ee[0], res, count=False):
+                    v2 = compare_line(small, oo[0], ee[0], res, count=False)
+                    rep2 = bool(v2) and all(k.split(":")[0] in ("X", "E") and k.split(":")[1] in ("structure", "vectorize", "size") for (k, _, _, _) in v2)
+                    for (k2, w2, e2, o2) in v2:
                         if k2 == kind:
-                            res.violation(kind, w2, {"line": small}, expected=e2, observed=o2)
+                            res.violation(kind, w2, {"line": small}, expected=e2, observed=o2, no_input=rep2)
                             break
                     continue
-            res.violation(kind, what, {"line": line}, expected=ex, observed=ob)
+            res.violation(kind, what, {"line": line}, expected=ex, observed=ob, no_input=rep_only)
     res.distinct = {l for (l, _) in lines}
     res.rule = ("one case = one input line (kind X/E/T/G/H, diagram(s), level bound or grid or program, evaluation points); distinct = distinct "
                 "lines; every line builds at least one landscape and compares all levels 0..n at every candidate breakpoint "
